@@ -21,12 +21,13 @@ ALL = ["logic_base", "logic", "nat", "function", "set", "list", "int", "rat", "r
 def run(rep, tier):
     quick = tier == "quick"
     wd = work_dir("C04", clean=True)
-    rep.rule = ("Macro invocations (macro, arguments, premise sequents) harvested from the final proofs of seeded library theorems and, "
+    rep.rule = ("(a) veriT rule macros on all candidate steps of C18_Alethe, (b) arithmetic macros with an expansion on the C05 goal universe at "
+                "every numeric type, (c) macro invocations (macro, arguments, premise sequents) harvested from the final proofs of seeded library theorems and, "
                 "recursively, from the expansions; mutations (premise dropped/duplicated/permuted/shortened, goal conjunct/disjunct/negated/"
                 "swapped); seeded fresh instances of imp_conj / imp_disj / trivial. Non-trivial = eval reports a sequent and the expansion is "
                 "produced (the property's precondition); distinct by (macro, arguments, premises).")
     rep.assumptions = ["z3 steps are not re-run (check_z3 = False), as in the repository's monitor", "sequents are compared through interned structural encodings",
-                       "veriT rule macros are exercised by C18; macros without a detailed expansion (NotImplementedError) are outside the property"]
+                       "macros without a detailed expansion (NotImplementedError) are outside the property; soundness of veriT rules is C18, here only eval vs expansion"]
     r = model_check("C04_Macro", "C04_Macro.cfg", wd=wd / "mc", workers=4)
     rep.add_mc("C04_Macro", r, "Props=1..3, Levels={0,1,10}")
     if r.violated:
@@ -41,6 +42,25 @@ def run(rep, tier):
     evs = read_events(evp)
     v = validate_trace("C04_MacroTrace", evp, wd=wd / "tv", nchunks=1 if quick else 3)
     rep.add_trace_result("macros", evs, v, sample_n=3)
+    # the veriT rule macros on the candidate steps of spec/C18_Alethe.tla, and the arithmetic macros that have an expansion on the
+    # goal universe of spec/C05_Arith.tla (also at types the macro is not meant for)
+    from harness.core import tlc, write_events
+    vvec = wd / "verit_vectors.ndjson"
+    rv = tlc("C18_Alethe", "C18_Alethe_small.cfg", wd=wd / "mc", workers=1, env={"VECTOR_FILE": vvec, "PROOF_FILE": wd / "verit_proofs.ndjson"}, timeout=3600)
+    require(rv.rc == 0 and vvec.exists(), "C04: C18_Alethe did not emit vectors: %s" % rv.error)
+    avec = wd / "arith_vectors.ndjson"
+    ra = tlc("C05_Arith", "C05_Arith_tiny.cfg" if quick else "C05_Arith_small.cfg", wd=wd / "mc", workers=1, env={"VECTOR_FILE": avec}, timeout=3600)
+    require(ra.rc == 0 and avec.exists(), "C04: C05_Arith did not emit vectors: %s" % ra.error)
+    ev2, ev3 = wd / "verit.ndjson", wd / "arith.ndjson"
+    run_driver("c04", ["verit", vvec, ev2, 2500 if quick else 0], timeout=7200)
+    run_driver("c04", ["arith", avec, ev3, 1200 if quick else 0], timeout=7200)
+    more = []
+    for nm, pth in (("verit", ev2), ("arith", ev3)):
+        es = read_events(pth)
+        vv = validate_trace("C04_MacroTrace", pth, wd=wd / ("tv_" + nm), nchunks=1)
+        rep.add_trace_result(nm, es, vv, sample_n=1)
+        more += es
+    evs = evs + more
     per = Counter(e["macro"] for e in evs if e["eval"][0] and e["expand"][0])
     rep.notes["judged_invocations_per_macro"] = dict(per)
     rep.notes["eval_accepts_but_no_expansion"] = dict(Counter(e["macro"] for e in evs if e["eval"][0] and not e["expand"][0]))
